@@ -88,6 +88,12 @@ def make_pair(rng):
         if numb == "int":
             off = (round(off[0]), round(off[1]))
         b, _ = G.random_polygon(rng, numb, off, size * rng.choice([0.5, 1.0, 1.0]), cw=rng.random() < 0.3)
+        if num != "float" and numb != "float" and rng.random() < 0.15:
+            k = Fr(1, rng.choice([50000, 10 ** 6]))
+            for sp in (a, b):
+                sp["num"] = "frac"
+                sp["v"] = [[str(Fr(x) * k), str(Fr(y) * k)] for x, y in sp["v"]]
+            return a, b, "poly-rational-tiny"
         return a, b, "poly-%s-%s" % (num, numb)
     d = size * rng.choice([0.4, 0.8, 1.2, 3.0])
     off = (rng.uniform(-d, d), rng.uniform(-d, d))
